@@ -33,60 +33,41 @@ func NewResolver(db shared.DBNodeMap, c Config) Resolver {
 // Resolve resolves the current database
 // Deprecated: Deprecated in favor of using Resolve function directly
 func (r Resolver) Resolve() error {
-	var err error
-	for name := range r.db {
-		if err = r.resolveNode(name, 0); err != nil {
-			return err
-		}
-	}
-	return nil
+	_, err := Resolve(r.config, r.db)
+	return err
 }
 
-func (r Resolver) resolveNode(name string, level int) error {
-	if level >= r.config.MaxDepth {
-		return fmt.Errorf("maximum resolution depth reached")
-	}
+var errMaxDepth = fmt.Errorf("maximum resolution depth reached")
 
-	node, exists := r.db[name]
-	if !exists {
-		return nil
-	}
-
-	nel := shared.NewElements()
-
-	for _, e := range node.Elements {
-		if err := r.resolveNode(e.Name, level+1); err != nil {
-			return err
-		}
-		foundNode, exists := r.db[e.Name]
-		if exists {
-			nel.SumMerge(foundNode.Elements, e.Value)
-		} else {
-			var tm shared.Elements
-			tm.Add(e.Name, e.Value)
-			nel.SumMerge(tm, 1)
-		}
-	}
-	nel.Sort()
-	r.db[name].Elements = nel
-	return nil
-}
-
-func resolveNode(maxDepth int, db shared.DBNodeMap, name string, level int) error {
-	if level >= maxDepth {
-		return fmt.Errorf("maximum resolution depth reached")
-	}
-
+// resolveNode flattens the node with the given name and returns the length of
+// the longest chain of references starting at it. The result does not depend
+// on the order in which nodes are visited: heights are remembered for nodes
+// that are already flattened and nodes on the current path are tracked so that
+// cycles are detected without descending maxDepth levels.
+func resolveNode(maxDepth int, db shared.DBNodeMap, name string, heights map[string]int, onPath map[string]bool) (int, error) {
 	node, exists := db[name]
 	if !exists {
-		return nil
+		return 0, nil
 	}
+	if height, done := heights[name]; done {
+		return height, nil
+	}
+	if onPath[name] {
+		return 0, errMaxDepth
+	}
+	onPath[name] = true
+	defer delete(onPath, name)
 
 	nel := shared.NewElements()
+	height := 0
 
 	for _, e := range node.Elements {
-		if err := resolveNode(maxDepth, db, e.Name, level+1); err != nil {
-			return err
+		h, err := resolveNode(maxDepth, db, e.Name, heights, onPath)
+		if err != nil {
+			return 0, err
+		}
+		if h+1 > height {
+			height = h + 1
 		}
 		if foundNode, exists := db[e.Name]; exists {
 			nel.SumMerge(foundNode.Elements, e.Value)
@@ -96,14 +77,20 @@ func resolveNode(maxDepth int, db shared.DBNodeMap, name string, level int) erro
 			nel.SumMerge(tm, 1)
 		}
 	}
+	if height >= maxDepth {
+		return 0, errMaxDepth
+	}
 	nel.Sort()
-	db[name].Elements = nel
-	return nil
+	node.Elements = nel
+	heights[name] = height
+	return height, nil
 }
 
 func Resolve(c Config, db shared.DBNodeMap) (shared.DBNodeMap, error) {
+	heights := make(map[string]int, len(db))
+	onPath := make(map[string]bool)
 	for name := range db {
-		if err := resolveNode(c.MaxDepth, db, name, 0); err != nil {
+		if _, err := resolveNode(c.MaxDepth, db, name, heights, onPath); err != nil {
 			return db, err
 		}
 	}
